@@ -352,6 +352,8 @@ def coreduce_queries():
               ("7fff_7fff", 0x7FFF, 0x7FFF, 2), ("1235_4000", 0x1235, 0x4000, 2), ("7ffd_0001", 0x7FFD, 1, 2)]
     for (mn, m0, m1, ln) in mods15:
         for ti, t in enumerate(tuples15):
+            if ln == 2 and ti == 3 and mn != "7ffd_0001":
+                continue      # two full words with this factor tuple: no verdict in 300 s (z3)
             quick = (ti in (0, 3) and mn in ("7fff", "4001", "3fff")) or (ti == 2 and ln == 2)
             qs.append(Q("i15-coreduce-m%s-t%d" % (mn, ti), "C09_moddiv_unit.c", units=[], defs=["-DIMPL=15", "-DLEN=%d" % ln, "-DMC0=%d" % m0, "-DMC1=%d" % m1,
                         "-DPA=%d" % t[0], "-DPB=%d" % t[1], "-DQA=%d" % t[2], "-DQB=%d" % t[3]], unwind=6, timeout=300, backend="z3", checks=False, flags=["--no-standard-checks"],
